@@ -70,6 +70,8 @@ def judge (line impl : String) : String :=
     if hasEmptyDisj c.chk || c.ctx.any (fun e => hasEmptyDisj e.2) then "skip" else
     let want := if Spec.gfp c.g c.ctx c.obj c.chk then "accept" else "reject"
     let got := (words impl).headD "?"
+    if got == "hang" then "bad nontermination impl=hang" else
+    if got.startsWith "crash:" then s!"bad crash impl={got}" else
     if got == want then "ok"
     else s!"bad {classify c want} oracle={want} impl={got}"
 
@@ -78,6 +80,10 @@ def gen (seed n : Nat) (tier : String) (emit : String → IO Unit) : IO Unit := 
   let mut r := Rng.mk' seed
   for _ in List.range n do
     let (l, r') := genCase "c08" r
+    r := r'
+    emit l
+  for _ in List.range (n / 10) do
+    let (l, r') := genCycDisj "c08" r
     r := r'
     emit l
 
